@@ -16,6 +16,7 @@ import (
 type Cluster struct {
 	World    *World
 	Replicas []*Replica
+	Shadows  []*Replica // raw-mode twins, not fed by the driver
 	Sched    Scheduler
 	BaseDir  string
 
@@ -267,6 +268,9 @@ func (c *Cluster) NextBlock(p BlockPlan) (*ChainBlock, error) {
 // Close shuts every replica down and removes the run directory.
 func (c *Cluster) Close() {
 	for _, r := range c.Replicas {
+		r.Shutdown()
+	}
+	for _, r := range c.Shadows {
 		r.Shutdown()
 	}
 	os.RemoveAll(c.BaseDir)
